@@ -1035,7 +1035,7 @@ fn subset_hists(a: &Args, rng: &mut Rng, p: &Pools) -> Vec<Case> {
                 }
             }
         } else {
-            let per = if kind == FactoryKind::TokenMerge { 12 } else if xb == 0 { 4 } else { 6 };
+            let per = if kind == FactoryKind::TokenMerge { 8 } else if xb == 0 { 4 } else { 4 };
             for c in &cm {
                 for _ in 0..per {
                     let x = if xb == 0 { 0 } else { rng.below(1 << xb) as u32 };
@@ -1165,7 +1165,7 @@ fn creation_scripts() -> Vec<Case> {
 }
 
 fn random_hists(a: &Args, rng: &mut Rng, p: &Pools) -> Vec<Case> {
-    let per_kind = if a.thorough() { 1500 } else { 120 };
+    let per_kind = if a.thorough() { 1500 } else { 90 };
     let mut out = vec![];
     for kind in FactoryKind::ALL {
         let codes = minter_codes(kind);
